@@ -76,6 +76,8 @@ def run_alone(job):
 
 
 def _harness_error(e):
+    if isinstance(e, TypeError) and "argument" in str(e) and "()" in str(e):
+        return False        # the sequence function refused the call as written (documented parameter names / positions)
     return library_frame(e.__traceback__) is None and not isinstance(e, NonTermination)
 
 
@@ -89,6 +91,8 @@ def prep_types(case):
     bus = Bus([unit, other], max_commands=300)
     d = single_kind(case)
     where = "QueryDeviceTypes(%s %d) on a unit with types %r" % (d, a, types)
+    if (a + len(types)) % 2:
+        return Job("types", case, bus, lambda: sequences.QueryDeviceTypes(addr=make_dest(address, d, a)), where + " [addr=]")
     return Job("types", case, bus, lambda: sequences.QueryDeviceTypes(make_dest(address, d, a)), where)
 
 
@@ -252,7 +256,15 @@ def prep_setgroups(case):
         "%s %d" % (spelt, g) if kind == "group" else "%s %d" % (spelt, a) if kind in ("short", "int") else spelt, sorted(req), sorted(cur))
     # "groups is a set of integers": a set or a frozenset; the caller keeps using its own object afterwards
     given = frozenset(req) if (case["cur"] + case["req"]) % 2 else set(req)
-    return Job("setgroups", case, bus, lambda: sequences.SetGroups(make_dest(address, spelt, a, g), given), where,
+    # the arguments by position, or by the names the function documents (addr, groups)
+    style = case.get("call", ["positional", "keywords", "groups-keyword"][(case["cur"] + 2 * case["req"]) % 3])
+    if style == "keywords":
+        mk = lambda: sequences.SetGroups(addr=make_dest(address, spelt, a, g), groups=given)      # noqa: E731
+    elif style == "groups-keyword":
+        mk = lambda: sequences.SetGroups(make_dest(address, spelt, a, g), groups=given)           # noqa: E731
+    else:
+        mk = lambda: sequences.SetGroups(make_dest(address, spelt, a, g), given)                  # noqa: E731
+    return Job("setgroups", case, bus, mk, where + (" [arguments: %s]" % style if style != "positional" else ""),
                cur=cur, req=req, given=given, unit=unit, bystander=bystander, extra=extra, g=g)
 
 
